@@ -181,6 +181,10 @@ def compare_step(w, rec, out, val, before):
                     if abs(wt * nl - vv) > 1e-9 * max(1.0, abs(vv)):
                         fails.append(("track_holdings", "entry reports %s-trade weight %s = %r but value / NLV = %r" % (tag, n, wt, vv / nl if nl else None), ""))
         comm = sum(t.cost_of_commissions for t in e.trades)
+        sp = sum(t.cost_of_spread for t in e.trades)
+        if "spread" in rec and not close(sp, frac(rec["spread"])):
+            fails.append(("track_costs", "entry reports a spread cost of %r, |quantity| x multiplier x (ask - bid) over its trades is %s" % (
+                sp, frac(rec["spread"])), ""))
         if not close(e.profit_on_idle_cash, frac(rec["interest"])):
             fails.append(("env_interest", "interest credited for the period before this execution %r, the published rate gives %s" % (
                 e.profit_on_idle_cash, frac(rec["interest"])), ""))
@@ -243,6 +247,9 @@ def end_of_episode(w, hist):
         if o5 == "ok":
             fee = sum(frac(r["comm"]) for r in steps)
             intr = sum(frac(r["interest"]) for r in steps)
+            sprd = sum(frac(r["spread"]) for r in steps if "spread" in r)
+            if all("spread" in r for r in steps) and not close(float(tc["Spread"].iloc[-1]), sprd):
+                fails.append(("frames", "transaction_costs spread total %r, spec %s" % (tc["Spread"].iloc[-1], sprd), ""))
             if not close(float(tc["Broker fees"].iloc[-1]), fee) or not close(float(tc["Profit on idle Cash"].iloc[-1]), intr):
                 fails.append(("frames", "transaction_costs totals %r / %r, spec fees %s interest %s" % (
                     tc["Broker fees"].iloc[-1], tc["Profit on idle Cash"].iloc[-1], fee, intr), ""))
